@@ -71,7 +71,7 @@ let run_hist (path : string) =
   let st = ref None and case_id = ref "" and case_kind = ref KBase and case_bad = ref false and case_viol = ref false in
   let case_tag = ref "-" in
   let slot : doc option ref = ref None in
-  let nrecs = ref 0 in
+  let nrecs = ref 0 and ncalls = ref 0 and case_faults : fault array ref = ref [||] in
   let pend_op : op ref = ref OInfo and pend_res : outp option ref = ref None and pend_flush_ok = ref true in
   let pend_txt = ref "" in
   (* outputs of the current case / of the previous one (twin comparison) *)
@@ -93,11 +93,12 @@ let run_hist (path : string) =
     match split_ws lhs with
     | "CASE" :: id :: kind :: n :: _wrapper :: rest ->
         incr ncases; case_id := id; case_bad := false; case_viol := false;
-        case_kind := kind_of_string kind; slot := None; nrecs := 0;
+        case_kind := kind_of_string kind; slot := None; nrecs := 0; ncalls := 0;
         pend_op := OInfo; pend_res := None; pend_flush_ok := true; pend_txt := "";
         cur_res := []; cur_w := [];
         let faults = match rest with f :: _ -> parse_faults f | [] -> [] in
         case_tag := (match rest with _ :: t :: _ -> t | _ -> "-");
+        case_faults := Array.of_list faults;
         st := Some (x_new !case_kind (z_of_string n), empty_writer faults)
     | ["END"] ->
         (* non-triviality: >= 2 chunks and >= 1 metadata document over all outputs, or two different metadata documents *)
@@ -199,10 +200,22 @@ let run_hist (path : string) =
                   (* the emit-side oracle on the implementation's own outputs *)
                   let fresh = drop !nrecs impl_raw in
                   nrecs := List.length impl_raw;
-                  let full_ok = (match !pend_op with OFlush -> !pend_flush_ok | _ -> true) in
-                  let recs = List.map (fun o -> match docs_of_out o with
-                      | Some ds when full_ok -> WFull (OFtdc ds)
-                      | _ -> WPart (O, OFtdc [])) fresh in
+                  (* which Write calls happened during this operation, and what the injected fault schedule (an input of
+                     the case) did to each: error = nothing recorded, short = a prefix recorded, none = a complete record *)
+                  let calls = (match split_ws rhs with c :: _ -> int_of_string c | [] -> !ncalls) in
+                  let kinds = List.filter_map (fun i ->
+                      match (if i < Array.length !case_faults then !case_faults.(i) else FNone) with
+                      | FError -> None | FShort _ -> Some false | FNone -> Some true)
+                      (List.init (max 0 (calls - !ncalls)) (fun j -> !ncalls + j)) in
+                  ncalls := calls;
+                  if List.length kinds <> List.length fresh then
+                    mismatch "writer-calls" (string_of_int (List.length fresh)) (string_of_int (List.length kinds));
+                  let recs = List.mapi (fun i o ->
+                      let full = (match List.nth_opt kinds i with Some b -> b | None -> true) in
+                      if not full then WPart (O, OFtdc [])
+                      else match docs_of_out o with
+                        | Some ds -> WFull (OFtdc ds)
+                        | None -> WFull (ODocs (false, []))) fresh in   (* complete record that is no document sequence *)
                   let e = { ev_op = !pend_op; ev_resolve = !pend_res; ev_recs = recs } in
                   if not (event_okb !case_kind !slot e) then
                     violation (Printf.sprintf "c11 emit: output of operation [%s] does not have the shape required by the metadata slot=%s : resolve=%s new-writer-records=%s"
